@@ -147,6 +147,9 @@ def _run(prop, tier, test, seed, nshards, binary, outdir, t0):
         env = goenv()
         env.update({"VERIF_TIER": tier, "VERIF_SEED": str(seed), "VERIF_SHARD": str(i),
                     "VERIF_NSHARDS": str(nshards), "VERIF_OUT": outdir})
+        if "GOMAXPROCS" not in os.environ and not PROPS[prop][3]:
+            # one worker per core: keep each worker's GC from fighting the others
+            env["GOMAXPROCS"] = str(max(2, (os.cpu_count() or 16) // nshards))
         lf = open(os.path.join(outdir, "log.%d.txt" % i), "w")
         p = subprocess.Popen([binary, "-test.run", "^%s$" % test, "-test.timeout", "0", "-test.count", "1", "-test.v"],
                              cwd=os.path.join(HARNESS, "props"), env=env, stdout=lf, stderr=subprocess.STDOUT)
